@@ -73,6 +73,7 @@ def mkMultiClientCfg (m : MultiClientCfg) : R MultiClientCfg :=
   else if m.claimEvent.isEmpty then mcErr
   else if m.grant.isEmpty then mcErr
   else if m.releaseEvent.isEmpty then mcErr
+  else if m.releaseEvent = m.claimEvent then mcErr      -- contradictory (after the repair of D-13)
   else .ok m
 
 structure PortsCfg where
